@@ -101,6 +101,12 @@ def corpus_docs():
                  "job": {"xs": list(range(12))},
                  "doc": _wf({"xs": "int[]"}, {"s": {"run": T["inc"](), "in": {"x": "xs"}, "scatter": "x", "out": ["o"]}},
                             {"o": {"type": A, "outputSource": "s/o"}}, ["ScatterFeatureRequirement"])})
+    # optional scattered input with a default next to another input: a null FOLLOWED by values (DefaultRetagTransformer)
+    docs.append({"name": "scatter-default-over-nulls", "line": None, "out": "o", "key": None, "job": {"xs": [1, None, 3, None, 5], "k": 1},
+                 "doc": _wf({"xs": {"type": {"type": "array", "items": ["null", "int"]}}, "k": "int"},
+                            {"s": {"run": T["addk_default"](), "in": {"x": "xs", "k": "k"}, "scatter": "x", "out": ["o"]}},
+                            {"o": {"type": A, "outputSource": "s/o"}}, ["ScatterFeatureRequirement"]),
+                 "expect": [101, 107, 103, 107, 105]})
     # linkMerge
     docs.append({"name": "merge-nested-duplicate", "line": "mergen a=1 b=2 a=1", "out": "o", "key": "linkMerge:duplicate-source",
                  "job": {"a": 1, "b": 2},
@@ -267,6 +273,11 @@ class C29(Property):
         elif o1 == "success" and sf["norm"] != ct["norm"]:
             diff = {k: (sf["norm"].get(k), ct["norm"].get(k)) for k in set(sf["norm"]) | set(ct["norm"]) if sf["norm"].get(k) != ct["norm"].get(k)}
             ctx.fail(key, f"{d['name']}: outputs differ (streamflow, cwltool): {json.dumps(diff)[:600]}", case)
+        if "expect" in d:
+            for who, o, side in (("StreamFlow", o1, sf), ("cwltool", o2, ct)):
+                got = "FAIL" if o != "success" else side["norm"].get(d["out"])
+                if got != d["expect"] and who == "StreamFlow":
+                    ctx.fail(key, f"{d['name']}: StreamFlow gives {got}, the standard {d['expect']}", case)
         # the Lean model / spec on corpus documents
         if model_line is not None:
             spec, sfm = _expected(model_line, d)
@@ -283,7 +294,9 @@ class C29(Property):
         C.warm_up()
         rng = ctx.rng
         corpus = corpus_docs()
-        lines = ctx.lean("Drivers/C29.lean", [d["line"] for d in corpus])
+        with_line = [d for d in corpus if d["line"] is not None]
+        got = dict(zip([d["name"] for d in with_line], ctx.lean("Drivers/C29.lean", [d["line"] for d in with_line])))
+        lines = [got.get(d["name"]) for d in corpus]
         cases, by_id = [], {}
         for i, (d, ln) in enumerate(zip(corpus, lines)):
             d["corpus"] = True
